@@ -90,6 +90,10 @@ def _exits(body):
     return False
 
 
+def _exits_value(body):
+    return any(isinstance(x, ast.Return) for b in body for x in ast.walk(b))
+
+
 def _fold(stmts, env, depth=0, boolean=True):
     if depth > 40:
         return None
@@ -104,6 +108,12 @@ def _fold(stmts, env, depth=0, boolean=True):
             if st.value is None:
                 return None
             return _Subst(env).visit(copy.deepcopy(st.value))
+        if isinstance(st, ast.If) and not st.orelse and st.body and all(isinstance(b, (ast.Raise, ast.Expr)) for b in st.body) and isinstance(st.body[-1], ast.Raise):
+            continue          # a guard that only raises: the value is defined where it does not fire
+        if isinstance(st, ast.If) and st.orelse and all(isinstance(b, (ast.Raise, ast.Expr)) for b in st.orelse) and isinstance(st.orelse[-1], ast.Raise) \
+                and not _exits_value(st.orelse):
+            # if ok: <value part> else: raise  -- the value part is the predicate
+            return _fold(st.body + ([] if _exits(st.body) else stmts[i + 1:]), env, depth + 1, boolean)
         if isinstance(st, ast.If):
             rest = stmts[i + 1:]
             c = _Subst(env).visit(copy.deepcopy(st.test))
